@@ -83,6 +83,28 @@ YMax(b) == I16(b, 8)
 Extents(b) == << XMin(b), YMax(b), XMax(b) - XMin(b), YMin(b) - YMax(b) >>
 Shift(pts, dx) == [i \in DOMAIN pts |-> [pts[i] EXCEPT !.x = @ + dx]]
 
+ShiftXY(pts, dx, dy) == [i \in DOMAIN pts |-> [pts[i] EXCEPT !.x = @ + dx, !.y = @ + dy]]
+
+(* ---- composite glyphs (numberOfContours < 0): component records after the 10-byte header ----      *)
+(* flags: 0x1 ARG_1_AND_2_ARE_WORDS, 0x2 ARGS_ARE_XY_VALUES, 0x8 WE_HAVE_A_SCALE, 0x20 MORE_COMPONENTS,  *)
+(* 0x40 WE_HAVE_AN_X_AND_Y_SCALE, 0x80 WE_HAVE_A_TWO_BY_TWO, 0x200 USE_MY_METRICS                        *)
+I8(b, p) == LET u == U8(b, p) IN IF u >= 128 THEN u - 256 ELSE u
+RECURSIVE ReadComponents(_, _, _)
+ReadComponents(b, p, acc) ==
+  IF p + 4 > Len(b) \/ Len(acc) >= 64 THEN acc
+  ELSE LET fl == U16(b, p)
+           words == Bit(fl, 1)
+           a1 == IF words THEN I16(b, p + 4) ELSE I8(b, p + 4)
+           a2 == IF words THEN I16(b, p + 6) ELSE I8(b, p + 5)
+           afterArgs == p + 4 + (IF words THEN 4 ELSE 2)
+           scaleBytes == IF Bit(fl, 8) THEN 2 ELSE IF Bit(fl, 64) THEN 4 ELSE IF Bit(fl, 128) THEN 8 ELSE 0
+           c == [gid |-> U16(b, p + 2), dx |-> a1, dy |-> a2, xy |-> Bit(fl, 2),
+                 scaled |-> Bit(fl, 8) \/ Bit(fl, 64) \/ Bit(fl, 128), mymetrics |-> Bit(fl, 512)]
+       IN IF Bit(fl, 32) THEN ReadComponents(b, afterArgs + scaleBytes, Append(acc, c)) ELSE Append(acc, c)
+Components(b) == ReadComponents(b, 10, << >>)
+(* all contours of a simple glyph record *)
+Contours(b, dx, dy) == LET pts == ShiftXY(Points(b), dx, dy) IN [c \in 1..NumContours(b) |-> Contour(b, pts, c)]
+
 (* ---- horizontal advance: the numberOfHMetrics tail rule ---- *)
 HAdvance(gid, nhm, advAtGid, advLast) == IF gid < nhm THEN advAtGid ELSE advLast
 =============================================================================
